@@ -234,6 +234,19 @@ fn eval_inner(case: &Case, d: &[u8], info: &mut Info) -> Result<(), Fail> {
         Err(e) => {
             info.outcome = "unsupported";
             info.compress_err = Some(normalise_msg(&e.to_string()));
+            // The statement names these selectors: refusing them is not "unsupported".
+            let named_lossless = matches!(
+                m,
+                flags::ZLIB | flags::BZIP2 | flags::LZMA | flags::SPARSE | flags::PKWARE
+            );
+            let named_adpcm = (m == flags::ADPCM_MONO && d.len() % 2 == 0)
+                || (m == flags::ADPCM_STEREO && d.len() % 4 == 0);
+            if named_lossless || named_adpcm {
+                return Err(Fail::new(
+                    format!("compress-rejects-named-selector:{name}"),
+                    format!("compress({} bytes, {name}) = Err({e})", d.len()),
+                ));
+            }
             return Ok(());
         }
     };
